@@ -35,6 +35,7 @@ CFG = {
     "level_text": "Proofs about (1) a byte-level transcription of the seven hand-written token scanners: for every character "
                   "classification and every well-formed byte string no slice is taken off a char boundary or out of range, results and "
                   "error slices lie on boundaries inside the input, successful scans return non-empty tokens, skip_ws is idempotent; "
+                  "(3) a token-level model of the FILTER arithmetic parser: parse(print(e)) = e for every expression tree and both parenthesisation styles (arith_parse_print); "
                   "(2) a token-level transcription of the recursive SELECT parser with the extracted nesting limit: lex(print(t, layout)) "
                   "parses back to exactly t for every well-formed tree of the fragment (arbitrarily nested groups, UNION, GRAPH, FILTER with "
                   "&&, ||, !, sub-selects, DISTINCT, GROUP BY, ORDER BY, LIMIT), every dot style and every separator-complete layout "
